@@ -32,7 +32,7 @@ Proof. destruct value; try discriminate; reflexivity. Qed.
 
 Lemma frag_stmt_def k sc name var kd t value sp sc' :
   frag_stmt pv sv bound (S k) sc (SDefinition name var kd t value sp) = Some sc' ->
-  is_function value = false /\ fresh_id pv sv bound sc var = true /\ frag_expr pv sv bound k (var :: sc) value = true /\ sc' = var :: sc.
+  is_function value = false /\ fresh_id pv sv bound sc var = true /\ frag_expr pv k (var :: sc) value = true /\ sc' = var :: sc.
 Proof.
   cbn [frag_stmt]. destruct value; try discriminate; cbn [is_function];
     (destruct (fresh_id pv sv bound sc var) eqn:Hf; [|discriminate]); cbn [andb];
@@ -46,7 +46,7 @@ Lemma frag_stmt_block k sc ss sp :
 Proof. reflexivity. Qed.
 
 Lemma frag_stmt_sexpr k sc value sp :
-  frag_stmt pv sv bound (S k) sc (SStatementExpression value sp) = if frag_expr pv sv bound k sc value then Some sc else None.
+  frag_stmt pv sv bound (S k) sc (SStatementExpression value sp) = if frag_expr pv k sc value then Some sc else None.
 Proof. reflexivity. Qed.
 
 Definition L_stmt (g : nat) : Prop :=
@@ -84,7 +84,7 @@ Proof.
     cbn [statement] in Hlow. destruct g as [|g']; [discriminate|].
     rewrite (definition_nonfun g' var value ctx Hnf) in Hlow. mon Hlow.
     destruct a as [code_v rv]. cbn [fst snd] in *.
-    destruct (L_expr_all pv sv bound u g' k value ctx c code_v rv c' (var :: sc) l Hm Hfe) as (b1 & l1 & Hs1 & ? & ?).
+    destruct (L_expr_all pv u g' k value ctx c code_v rv c' (var :: sc) l Hm Hfe) as (b1 & l1 & Hs1 & ? & ?).
     pose proof Hs1 as (_ & ? & _).
     eexists _, _.
     eapply cshape_cons; [apply (cshape_plain u l (IDefine var) c c); [lia | reflexivity | reflexivity | apply used_plain]|].
@@ -96,9 +96,9 @@ Proof.
     eapply (L_stmts_of g IH); eassumption.
   - (* SStatementExpression *)
     rewrite frag_stmt_sexpr in Hfrag. cbn [statement] in Hlow. mon Hlow.
-    destruct (frag_expr pv sv bound k sc value) eqn:Hfe; [|discriminate Hfrag].
+    destruct (frag_expr pv k sc value) eqn:Hfe; [|discriminate Hfrag].
     destruct a as [code_v rv]. cbn [fst] in *.
-    destruct (L_expr_all pv sv bound u g k value ctx c code_v rv c' sc l Hm Hfe) as (b1 & l1 & Hs1 & _).
+    destruct (L_expr_all pv u g k value ctx c code_v rv c' sc l Hm Hfe) as (b1 & l1 & Hs1 & _).
     eexists _, _. exact Hs1.
 Qed.
 
@@ -267,7 +267,7 @@ Qed.
 
 
 Notation okstep := (okstep pv bound).
-Notation P_eval := (P_eval pv sv bound u).
+Notation P_eval := (P_eval pv bound u).
 
 Lemma okstepS_trans sc sc1 sc2 e2 st2 F F1 F2 c c0 c1 E stL b1 E1 stL1 b2 E2 stL2 e1 st1 :
   okstepS sc sc1 e1 st1 F c c0 E stL b1 E1 stL1 F1 -> okstepS sc1 sc2 e2 st2 F1 c0 c1 E1 stL1 b2 E2 stL2 F2 ->
@@ -385,7 +385,7 @@ Proof.
     apply ucovers_cons in Hu as [Hu1 Hu]. apply ucovers_app in Hu as [Huv Hua].
     assert (Hcvar : 1 <= count_of u var) by (apply Hu1; left; reflexivity).
     assert (Hcrv : 1 <= count_of u rv) by (eapply Hua; [left; reflexivity | right; left; reflexivity]).
-    destruct (L_expr_all pv sv bound u g' k value ctx c code_v rv c' (var :: sc) l Hm Hfe) as (_ & _ & (_ & Hcc & _) & Hrv1 & Hrv2).
+    destruct (L_expr_all pv u g' k value ctx c code_v rv c' (var :: sc) l Hm Hfe) as (_ & _ & (_ & Hcc & _) & Hrv1 & Hrv2).
     set (e' := (var, length (SyltSem.cells st)) :: e).
     assert (Hlcc : lut_ok bound l c c) by (eapply lut_ok_sub; [apply (cx_lut _ _ _ _ _ _ Hctx) | lia | lia]).
     destruct (step_define_user sc e st F c E stL l var Hrel Hlcc Hfresh Hcvar) as (E1 & stL1 & Hokd).
@@ -400,7 +400,7 @@ Proof.
     fold e' in Hev. unfold SyltSem.bind at 1 in Hev.
     destruct (SyltSem.eval n e' value (s_alloc st (SV Values.VLuaNil))) as [[v_|o|cc] st1] eqn:He1.
     2: { inversion Hev; subst.
-         destruct (P_eval_all pv sv bound u n g' k value ctx c code_v rv c' e' _ _ st' (var :: sc) l E1 stL1 F He1 Hm Hfe Huv Hctx1 Hrel1 Hint)
+         destruct (P_eval_all pv bound u n g' k value ctx c code_v rv c' e' _ _ st' (var :: sc) l E1 stL1 F He1 Hm Hfe Huv Hctx1 Hrel1 Hint)
            as (b1 & l1 & Hs1 & _ & _ & Hp1).
          eexists _, _. split.
          - eapply cshape_cons; [exact Hsd|]. eapply cshape_app; [exact Hs1|].
@@ -409,7 +409,7 @@ Proof.
            eapply (exit_pre pv bound ctx sc (var :: sc) e e' st (s_alloc st (SV Values.VLuaNil)));
              [exact Hokd | exact Hrel | exact Hse | apply incl_tl, incl_refl | eapply exit_app; [exact Hp1 | apply N.le_refl] | lia | lia]. }
     2: { inversion Hev; subst.
-         destruct (P_eval_all pv sv bound u n g' k value ctx c code_v rv c' e' _ _ st' (var :: sc) l E1 stL1 F He1 Hm Hfe Huv Hctx1 Hrel1 Hint)
+         destruct (P_eval_all pv bound u n g' k value ctx c code_v rv c' e' _ _ st' (var :: sc) l E1 stL1 F He1 Hm Hfe Huv Hctx1 Hrel1 Hint)
            as (b1 & l1 & Hs1 & _ & _ & Hp1).
          eexists _, _. split.
          - eapply cshape_cons; [exact Hsd|]. eapply cshape_app; [exact Hs1|].
@@ -417,7 +417,7 @@ Proof.
          - cbn [stmt_post eval_post] in *.
            eapply (exit_pre pv bound ctx sc (var :: sc) e e' st (s_alloc st (SV Values.VLuaNil)));
              [exact Hokd | exact Hrel | exact Hse | apply incl_tl, incl_refl | eapply exit_app; [exact Hp1 | apply N.le_refl] | lia | lia]. }
-    destruct (P_eval_all pv sv bound u n g' k value ctx c code_v rv c' e' _ _ st1 (var :: sc) l E1 stL1 F He1 Hm Hfe Huv Hctx1 Hrel1 I)
+    destruct (P_eval_all pv bound u n g' k value ctx c code_v rv c' e' _ _ st1 (var :: sc) l E1 stL1 F He1 Hm Hfe Huv Hctx1 Hrel1 I)
       as (b1 & l1 & Hs1 & _ & _ & E2 & stL2 & F2 & Hok2 & Hd2). specialize (Hd2 Hcrv).
     pose proof Hok2 as (_ & _ & Hrel2 & _).
     assert (Hctx2 : ctx_ok l1 F2 E2 c' c') by (eapply (ctx_after pv bound u); eassumption).
@@ -450,20 +450,20 @@ Proof.
     split; [exact Hx1|]. split; [exact Hf1|]. split; [eapply rel_shrink; eassumption|]. split; assumption.
   - (* SStatementExpression *)
     rewrite frag_stmt_sexpr in Hfrag. cbn [statement] in Hlow. mon Hlow.
-    destruct (frag_expr pv sv bound k sc value) eqn:Hfe; [|discriminate Hfrag]. inversion Hfrag; subst sc'.
+    destruct (frag_expr pv k sc value) eqn:Hfe; [|discriminate Hfrag]. inversion Hfrag; subst sc'.
     destruct a as [code_v rv]. cbn [fst] in *.
     cbn [SyltSem.exec] in Hev. unfold SyltSem.bind at 1 in Hev.
     destruct (SyltSem.eval n e value st) as [[v_|o|cc] st1] eqn:He1.
     2: { inversion Hev; subst.
-         destruct (P_eval_all pv sv bound u n g k value ctx c code_v rv c' e _ _ st' sc l E stL F He1 Hm Hfe Hu Hctx Hrel Hint)
+         destruct (P_eval_all pv bound u n g k value ctx c code_v rv c' e _ _ st' sc l E stL F He1 Hm Hfe Hu Hctx Hrel Hint)
            as (b1 & l1 & Hs1 & _ & _ & Hpost).
          eexists _, _. split; [exact Hs1 | exact Hpost]. }
     2: { inversion Hev; subst.
-         destruct (P_eval_all pv sv bound u n g k value ctx c code_v rv c' e _ _ st' sc l E stL F He1 Hm Hfe Hu Hctx Hrel Hint)
+         destruct (P_eval_all pv bound u n g k value ctx c code_v rv c' e _ _ st' sc l E stL F He1 Hm Hfe Hu Hctx Hrel Hint)
            as (b1 & l1 & Hs1 & _ & _ & Hpost).
          eexists _, _. split; [exact Hs1 | exact Hpost]. }
     cbn in Hev. inversion Hev; subst r st'. clear Hev.
-    destruct (P_eval_all pv sv bound u n g k value ctx c code_v rv c' e _ _ st1 sc l E stL F He1 Hm Hfe Hu Hctx Hrel I)
+    destruct (P_eval_all pv bound u n g k value ctx c code_v rv c' e _ _ st1 sc l E stL F He1 Hm Hfe Hu Hctx Hrel I)
       as (b1 & l1 & Hs1 & _ & _ & E2 & stL2 & F2 & Hok2 & _).
     eexists _, _. split; [exact Hs1|].
     cbn [stmt_post]. exists E2, stL2, F2. split; [exact Hok2 | split; [apply sext_refl | apply incl_refl]].
